@@ -242,6 +242,30 @@ def features(hy, tree):
     def constant_like(s):
         return isinstance(s, m.Symbol) and unicodedata.normalize("NFKC", str(s)) in ("None", "True", "False")
     f["constant_like_name"] = any(constant_like(n) for n in nodes)
+
+    def variant(x):      # normalises to a constant name without being spelled like one
+        return constant_like(x) and str(x) not in ("None", "True", "False")
+
+    def deftype_const(n):
+        if _head(hy, n) != "deftype":
+            return False
+        args = [a for a in list(n)[1:]]
+        if args and isinstance(args[0], m.Keyword) and len(args) >= 2:
+            args = args[2:]
+        return bool(args) and constant_like(args[0])
+
+    def match_const(n):
+        if _head(hy, n) != "match":
+            return False
+        for x in _walk(hy, n):
+            if variant(x):
+                return True
+            if _head(hy, x) in ("unpack-iterable", "unpack-mapping") and len(x) == 2 and constant_like(x[1]):
+                return True
+        return False
+    # where the recorded defect lives: the name of a deftype, and binding positions of match patterns
+    # ... and any name that only *normalises* to a constant name (_nonconst tests the unmangled text)
+    f["constant_name_in_deftype_or_pattern"] = any(deftype_const(n) or match_const(n) or variant(n) for n in nodes)
     f["class_pattern_head"] = any(_head(hy, n) == "match" for n in nodes) and any(
         isinstance(n, m.Expression) and n and (isinstance(n[0], m.Expression) or str(n[0]) in ("None", "True", "False"))
         for n in nodes) or any(_head(hy, n) == "match" for n in nodes) and any(
